@@ -13,7 +13,17 @@ OPTION_SETS = [None, {"use_cte_elim": True}, {"use_with": False}]
 
 
 def build_jobs(tier, seed, kf_on):
+    from vf.checks import c04
+
     jobs = []
+    # DAG programs that exercise CTE elimination (same step text on different sources, sub-pipelines used twice): every option set
+    for label, src, tables in c04.programs("quick", seed)[:15]:
+        schema = {t: progs.SCHEMA[t] for t in tables}
+        for o in OPTION_SETS:
+            rows = {t: 2 for t in tables}
+            jobs.append(simple.tv_job(f"dag/{label} opts={o}", schema, rows, {"kind": "pandas", "src": src},
+                                      {"kind": "sql", "src": src, "dialect": "postgresql", "options": o}, kf_on, tier,
+                                      max_paths=1200 if tier == "quick" else 6000, wall_s=60 if tier == "quick" else 180))
     ps = c01.programs(tier, seed)
     for idx, (label, src, tables) in enumerate(ps):
         depth = label.count("+") + 1
